@@ -1,1 +1,830 @@
-// placeholder
+//! Reference semantics written from the property statements (C03-C08), with an explicit
+//! `Unspec`: whenever no sentence of a statement determines the result, the model says so
+//! and the caller asserts nothing.
+
+use crate::expr::*;
+use crate::props::c03::{model_bin, model_neg, Exp};
+use crate::val::V;
+use std::cmp::Ordering;
+use std::collections::BTreeMap;
+
+#[derive(Clone, Copy, Debug, PartialEq, Eq)]
+pub enum FailClass {
+    /// unbound variable, absent field or key
+    Absent,
+    /// any other failure
+    Other,
+    /// several operands failed with different classes and no statement says which one wins
+    Mixed,
+}
+
+#[derive(Clone, Debug, PartialEq)]
+pub enum Out {
+    Val(V),
+    Fail(FailClass),
+    Unspec,
+}
+
+impl Out {
+    pub fn show(&self) -> String {
+        match self {
+            Out::Val(v) => v.canon(),
+            Out::Fail(c) => format!("failure({:?})", c),
+            Out::Unspec => "unspecified".into(),
+        }
+    }
+    pub fn is_fail(&self) -> bool {
+        matches!(self, Out::Fail(_))
+    }
+}
+
+/// "non-zero numbers, true, non-empty strings/bytes/lists/maps, types, timestamps and
+/// durations are truthy; zero, false, empties, null and failures are not" (C05)
+pub fn truthy(v: &V) -> bool {
+    match v {
+        V::Int(i) => *i != 0,
+        V::UInt(u) => *u != 0,
+        V::F(f) => *f != 0.0,
+        V::Bool(b) => *b,
+        V::Str(s) => !s.is_empty(),
+        V::Bytes(b) => !b.is_empty(),
+        V::List(l) => !l.is_empty(),
+        V::Map(m) => !m.is_empty(),
+        V::Null => false,
+        V::Type(_) | V::Ts(..) | V::Dur(_) => true,
+    }
+}
+
+#[derive(Clone, Debug, PartialEq)]
+pub enum Cmp {
+    Ord(Option<Ordering>), // None = unordered (NaN)
+    /// unrelated types: every ordering operator must fail
+    Fail,
+    Unspec,
+}
+
+fn int_of(v: &V) -> Option<i128> {
+    match v {
+        V::Int(i) => Some(*i as i128),
+        V::UInt(u) => Some(*u as i128),
+        _ => None,
+    }
+}
+
+fn f_of(v: &V) -> Option<f64> {
+    match v {
+        V::Int(i) => Some(*i as f64),
+        V::UInt(u) => Some(*u as f64),
+        V::F(f) => Some(*f),
+        _ => None,
+    }
+}
+
+/// The one order behind < <= > >= (C04).
+pub fn compare(a: &V, b: &V) -> Cmp {
+    match (a, b) {
+        (V::Int(_) | V::UInt(_), V::Int(_) | V::UInt(_)) => {
+            Cmp::Ord(Some(int_of(a).unwrap().cmp(&int_of(b).unwrap())))
+        }
+        (V::Int(_) | V::UInt(_) | V::F(_), V::Int(_) | V::UInt(_) | V::F(_)) => {
+            // "an integer meets a double as its nearest double"
+            Cmp::Ord(f_of(a).unwrap().partial_cmp(&f_of(b).unwrap()))
+        }
+        (V::Str(x), V::Str(y)) => Cmp::Ord(Some(x.as_bytes().cmp(y.as_bytes()))),
+        (V::Bytes(x), V::Bytes(y)) => Cmp::Ord(Some(x.cmp(y))),
+        (V::Bool(x), V::Bool(y)) => Cmp::Ord(Some(x.cmp(y))),
+        (V::Ts(s1, n1), V::Ts(s2, n2)) => Cmp::Ord(Some((s1, n1).cmp(&(s2, n2)))),
+        (V::Dur(x), V::Dur(y)) => Cmp::Ord(Some(x.cmp(y))),
+        // bool against numbers: bool "counts as 0/1" in arithmetic, comparisons are not mentioned
+        (V::Bool(_), V::Int(_) | V::UInt(_) | V::F(_)) | (V::Int(_) | V::UInt(_) | V::F(_), V::Bool(_)) => Cmp::Unspec,
+        _ => Cmp::Fail,
+    }
+}
+
+#[derive(Clone, Copy, Debug, PartialEq)]
+pub enum EqR {
+    Yes,
+    No,
+    Unspec,
+}
+
+/// `==` (C04): same-type structural equality, numeric across int/uint/double.
+pub fn equal(a: &V, b: &V) -> EqR {
+    let yn = |c: bool| if c { EqR::Yes } else { EqR::No };
+    match (a, b) {
+        (V::Int(_) | V::UInt(_), V::Int(_) | V::UInt(_)) => yn(int_of(a) == int_of(b)),
+        (V::Int(_) | V::UInt(_) | V::F(_), V::Int(_) | V::UInt(_) | V::F(_)) => yn(f_of(a).unwrap() == f_of(b).unwrap()),
+        (V::Str(x), V::Str(y)) => yn(x == y),
+        (V::Bytes(x), V::Bytes(y)) => yn(x == y),
+        (V::Bool(x), V::Bool(y)) => yn(x == y),
+        (V::Null, V::Null) => EqR::Yes,
+        (V::Type(x), V::Type(y)) => yn(x == y),
+        (V::Ts(s1, n1), V::Ts(s2, n2)) => yn((s1, n1) == (s2, n2)),
+        (V::Dur(x), V::Dur(y)) => yn(x == y),
+        (V::List(x), V::List(y)) => {
+            if x.len() != y.len() {
+                return EqR::No;
+            }
+            let mut all = EqR::Yes;
+            for (p, q) in x.iter().zip(y) {
+                match equal(p, q) {
+                    EqR::No => return EqR::No,
+                    EqR::Unspec => all = EqR::Unspec,
+                    EqR::Yes => {}
+                }
+            }
+            all
+        }
+        (V::Map(x), V::Map(y)) => {
+            if x.len() != y.len() || x.keys().ne(y.keys()) {
+                return EqR::No;
+            }
+            let mut all = EqR::Yes;
+            for (k, p) in x {
+                match equal(p, &y[k]) {
+                    EqR::No => return EqR::No,
+                    EqR::Unspec => all = EqR::Unspec,
+                    EqR::Yes => {}
+                }
+            }
+            all
+        }
+        // equality between unrelated types is not determined by any statement
+        _ => EqR::Unspec,
+    }
+}
+
+/// A bound recording function: what it returns when called (it also logs the call).
+#[derive(Clone, Debug)]
+pub enum FnResult {
+    Val(V),
+    Fail,
+}
+
+pub struct Ctx<'a> {
+    pub vars: &'a BTreeMap<String, V>,
+    /// stored programs (evaluated under the same bindings)
+    pub progs: &'a BTreeMap<String, E>,
+    /// recording functions p0.. : name -> configured result
+    pub funcs: &'a BTreeMap<String, FnResult>,
+    /// names of the functions called, in the order the model calls them
+    pub log: Vec<String>,
+    /// set when the call log is not determined (e.g. a failing ?: condition)
+    pub log_unspecified: bool,
+    pub depth: u32,
+}
+
+fn join_fail(a: FailClass, b: FailClass) -> FailClass {
+    if a == b {
+        a
+    } else {
+        FailClass::Mixed
+    }
+}
+
+impl<'a> Ctx<'a> {
+    pub fn new(
+        vars: &'a BTreeMap<String, V>,
+        progs: &'a BTreeMap<String, E>,
+        funcs: &'a BTreeMap<String, FnResult>,
+    ) -> Ctx<'a> {
+        Ctx {
+            vars,
+            progs,
+            funcs,
+            log: Vec::new(),
+            log_unspecified: false,
+            depth: 0,
+        }
+    }
+
+    /// evaluate all operands left to right; the first Unspec wins, then failures are joined
+    fn strict(&mut self, es: &[&E], scope: &mut Vec<(String, V)>) -> Result<Vec<V>, Out> {
+        let mut vals = Vec::new();
+        let mut fail: Option<FailClass> = None;
+        let mut unspec = false;
+        for e in es {
+            match self.eval(e, scope) {
+                Out::Val(v) => vals.push(v),
+                Out::Fail(c) => fail = Some(fail.map_or(c, |f| join_fail(f, c))),
+                Out::Unspec => unspec = true,
+            }
+        }
+        if unspec {
+            return Err(Out::Unspec);
+        }
+        if let Some(f) = fail {
+            return Err(Out::Fail(f));
+        }
+        Ok(vals)
+    }
+
+    pub fn eval(&mut self, e: &E, scope: &mut Vec<(String, V)>) -> Out {
+        match e {
+            E::Lit(v) => Out::Val(v.clone()),
+            E::Var(n) => {
+                if let Some((_, v)) = scope.iter().rev().find(|(k, _)| k == n) {
+                    return Out::Val(v.clone());
+                }
+                if let Some(t) = type_value(n) {
+                    return Out::Val(t);
+                }
+                if let Some(v) = self.vars.get(n) {
+                    return Out::Val(v.clone());
+                }
+                if let Some(p) = self.progs.get(n) {
+                    // "another program stored in the same context (evaluated under the same bindings)"
+                    if self.depth >= 16 {
+                        return Out::Unspec;
+                    }
+                    self.depth += 1;
+                    let p = p.clone();
+                    let r = self.eval(&p, &mut Vec::new());
+                    self.depth -= 1;
+                    return r;
+                }
+                Out::Fail(FailClass::Absent)
+            }
+            E::Not(n, x) => match self.eval(x, scope) {
+                Out::Val(v) => {
+                    let mut b = truthy(&v);
+                    for _ in 0..*n {
+                        b = !b;
+                    }
+                    Out::Val(V::Bool(b))
+                }
+                o => o,
+            },
+            E::Neg(n, x) => {
+                let mut cur = self.eval(x, scope);
+                for _ in 0..*n {
+                    cur = match cur {
+                        Out::Val(v) => match model_neg(&v) {
+                            Exp::Val(r) => Out::Val(r),
+                            Exp::Fail => Out::Fail(FailClass::Other),
+                            _ => Out::Unspec,
+                        },
+                        o => o,
+                    };
+                }
+                cur
+            }
+            E::Bin(Op::Or, a, b) => {
+                // "a || b does not evaluate b when a is truthy ... yields true when either side is
+                //  truthy even if the other side fails, otherwise a failing operand makes it fail"
+                let ra = self.eval(a, scope);
+                if let Out::Val(v) = &ra {
+                    if truthy(v) {
+                        return Out::Val(V::Bool(true));
+                    }
+                }
+                if ra == Out::Unspec {
+                    // whether b is evaluated depends on a value the model does not know
+                    self.log_unspecified = true;
+                }
+                let rb = self.eval(b, scope);
+                if let Out::Val(v) = &rb {
+                    if truthy(v) {
+                        return Out::Val(V::Bool(true));
+                    }
+                }
+                match (ra, rb) {
+                    (Out::Unspec, _) | (_, Out::Unspec) => Out::Unspec,
+                    (Out::Fail(x), Out::Fail(y)) => Out::Fail(join_fail(x, y)),
+                    (Out::Fail(x), _) | (_, Out::Fail(x)) => Out::Fail(x),
+                    _ => Out::Val(V::Bool(false)),
+                }
+            }
+            E::Bin(Op::And, a, b) => {
+                // "a && b does not evaluate b when a is falsy or fails"
+                match self.eval(a, scope) {
+                    Out::Val(v) => {
+                        if !truthy(&v) {
+                            return Out::Val(V::Bool(false));
+                        }
+                    }
+                    o => {
+                        if o == Out::Unspec {
+                            self.log_unspecified = true;
+                        }
+                        return o;
+                    }
+                }
+                match self.eval(b, scope) {
+                    Out::Val(v) => Out::Val(V::Bool(truthy(&v))),
+                    o => o,
+                }
+            }
+            E::Bin(op, a, b) => {
+                let vals = match self.strict(&[a, b], scope) {
+                    Ok(v) => v,
+                    Err(o) => return o,
+                };
+                binop(*op, &vals[0], &vals[1])
+            }
+            E::Tern(c, a, b) => match self.eval(c, scope) {
+                Out::Val(v) => {
+                    if truthy(&v) {
+                        self.eval(a, scope)
+                    } else {
+                        self.eval(b, scope)
+                    }
+                }
+                Out::Fail(f) => {
+                    // "fails when c fails"; whether a branch is evaluated is not stated
+                    self.log_unspecified = true;
+                    Out::Fail(f)
+                }
+                Out::Unspec => {
+                    self.log_unspecified = true;
+                    Out::Unspec
+                }
+            },
+            E::List(l) => {
+                let refs: Vec<&E> = l.iter().collect();
+                match self.strict(&refs, scope) {
+                    Ok(v) => Out::Val(V::List(v)),
+                    // a failing element: rscel keeps errors as values inside containers; no
+                    // statement covers this
+                    Err(_) => Out::Unspec,
+                }
+            }
+            E::Map(m) => {
+                let mut out = BTreeMap::new();
+                let mut bad = false;
+                for (k, v) in m {
+                    let kv = self.eval(k, scope);
+                    let vv = self.eval(v, scope);
+                    match (kv, vv) {
+                        (Out::Val(V::Str(s)), Out::Val(x)) => {
+                            // "for a repeated map key the last entry wins"
+                            out.insert(s, x);
+                        }
+                        _ => bad = true,
+                    }
+                }
+                if bad {
+                    Out::Unspec
+                } else {
+                    Out::Val(V::Map(out))
+                }
+            }
+            E::Index(a, i) => {
+                let vals = match self.strict(&[a, i], scope) {
+                    Ok(v) => v,
+                    Err(o) => return o,
+                };
+                index(&vals[0], &vals[1])
+            }
+            E::Field(a, f) => match self.eval(a, scope) {
+                Out::Val(V::Map(m)) => match m.get(f) {
+                    Some(v) => Out::Val(v.clone()),
+                    // "m.k returns the value stored under k or an absent-field error"; a name that
+                    // is also a built-in method is a bound method, not a value
+                    None => {
+                        if is_builtin_name(f) {
+                            Out::Unspec
+                        } else {
+                            Out::Fail(FailClass::Absent)
+                        }
+                    }
+                },
+                Out::Val(_) => Out::Unspec, // field access on a non-map
+                o => o,
+            },
+            E::Call(f, args) => self.call(f, args, scope),
+            E::FStr(_) => Out::Unspec,
+            E::Match(s, cases) => {
+                let sv = match self.eval(s, scope) {
+                    Out::Val(v) => v,
+                    _ => {
+                        self.log_unspecified = true;
+                        return Out::Unspec;
+                    }
+                };
+                for (p, arm) in cases {
+                    let hit = match p {
+                        Pat::Any => Some(true),
+                        Pat::Type(t) => Some(type_pattern_matches(t, &sv)),
+                        Pat::Cmp(op, pe) => {
+                            let pv = match self.eval(pe, scope) {
+                                Out::Val(v) => v,
+                                _ => {
+                                    self.log_unspecified = true;
+                                    return Out::Unspec;
+                                }
+                            };
+                            match binop(op.unwrap_or(Op::Eq), &sv, &pv) {
+                                Out::Val(V::Bool(b)) => Some(b),
+                                _ => None,
+                            }
+                        }
+                    };
+                    match hit {
+                        Some(true) => return self.eval(arm, scope),
+                        Some(false) => {}
+                        None => {
+                            self.log_unspecified = true;
+                            return Out::Unspec;
+                        }
+                    }
+                }
+                Out::Val(V::Null)
+            }
+        }
+    }
+
+    fn call(&mut self, f: &E, args: &[E], scope: &mut Vec<(String, V)>) -> Out {
+        match f {
+            E::Var(name) => {
+                if let Some(r) = self.funcs.get(name.as_str()).cloned() {
+                    // recording function: arguments first, then the call itself
+                    let refs: Vec<&E> = args.iter().collect();
+                    let a = self.strict(&refs, scope);
+                    self.log.push(name.clone());
+                    if let Err(o) = a {
+                        // what a bound function receives for a failing argument is not stated
+                        let _ = o;
+                        return Out::Unspec;
+                    }
+                    return match r {
+                        FnResult::Val(v) => Out::Val(v),
+                        FnResult::Fail => Out::Fail(FailClass::Other),
+                    };
+                }
+                match name.as_str() {
+                    "has" if args.len() == 1 => match self.eval(&args[0], scope) {
+                        // "true when e evaluates, false exactly when e fails because a variable is
+                        //  unbound or a field/key is absent, and propagates every other failure"
+                        Out::Val(_) => Out::Val(V::Bool(true)),
+                        Out::Fail(FailClass::Absent) => Out::Val(V::Bool(false)),
+                        Out::Fail(FailClass::Other) => Out::Fail(FailClass::Other),
+                        Out::Fail(FailClass::Mixed) | Out::Unspec => Out::Unspec,
+                    },
+                    "coalesce" => {
+                        for a in args {
+                            match self.eval(a, scope) {
+                                Out::Val(V::Null) | Out::Fail(FailClass::Absent) => {}
+                                Out::Val(v) => return Out::Val(v),
+                                Out::Fail(FailClass::Other) => return Out::Fail(FailClass::Other),
+                                Out::Fail(FailClass::Mixed) | Out::Unspec => {
+                                    self.log_unspecified = true;
+                                    return Out::Unspec;
+                                }
+                            }
+                        }
+                        Out::Val(V::Null)
+                    }
+                    "size" if args.len() == 1 => match self.eval(&args[0], scope) {
+                        Out::Val(v) => size_of(&v),
+                        o => o,
+                    },
+                    "bool" if args.len() == 1 => match self.eval(&args[0], scope) {
+                        // strings spelled like boolean literals are parsed; everything else is
+                        // "the same truthiness everywhere"
+                        Out::Val(V::Str(_)) => Out::Unspec,
+                        Out::Val(v) => Out::Val(V::Bool(truthy(&v))),
+                        o => o,
+                    },
+                    "dyn" if args.len() == 1 => self.eval(&args[0], scope),
+                    _ => {
+                        for a in args {
+                            let _ = self.eval(a, scope);
+                        }
+                        self.log_unspecified = true;
+                        Out::Unspec
+                    }
+                }
+            }
+            E::Field(recv, name) => {
+                if let Some((_, nv)) = MACROS_WITH_VAR.iter().find(|(m, _)| m == name) {
+                    return self.macro_call(recv, name, *nv, args, scope);
+                }
+                match name.as_str() {
+                    "size" if args.is_empty() => match self.eval(recv, scope) {
+                        Out::Val(V::Map(_)) => Out::Unspec,
+                        Out::Val(v) => size_of(&v),
+                        o => o,
+                    },
+                    _ => {
+                        let _ = self.eval(recv, scope);
+                        for a in args {
+                            let _ = self.eval(a, scope);
+                        }
+                        self.log_unspecified = true;
+                        Out::Unspec
+                    }
+                }
+            }
+            _ => Out::Unspec,
+        }
+    }
+
+    fn macro_call(&mut self, recv: &E, name: &str, nv: usize, args: &[E], scope: &mut Vec<(String, V)>) -> Out {
+        let names: Vec<String> = args
+            .iter()
+            .take(nv)
+            .filter_map(|a| if let E::Var(v) = a { Some(v.clone()) } else { None })
+            .collect();
+        let arity_ok = match name {
+            "map" => args.len() == 2 || args.len() == 3,
+            "reduce" => args.len() == 4,
+            _ => args.len() == 2,
+        };
+        if names.len() != nv || !arity_ok {
+            return Out::Unspec;
+        }
+        let range = match self.eval(recv, scope) {
+            Out::Val(V::List(l)) => l,
+            Out::Val(V::Map(_)) => return Out::Unspec, // key order is checked separately (C07)
+            Out::Val(_) => return Out::Fail(FailClass::Other),
+            o => return o,
+        };
+        let x = names[0].clone();
+        match name {
+            "all" | "exists" | "exists_one" | "filter" => {
+                let mut hits = 0usize;
+                let mut kept = Vec::new();
+                for el in range {
+                    scope.push((x.clone(), el.clone()));
+                    let r = self.eval(&args[1], scope);
+                    scope.pop();
+                    let t = match r {
+                        Out::Val(v) => truthy(&v),
+                        // "stops at the first element ... whose body fails, which makes the macro fail"
+                        o => {
+                            if o == Out::Unspec {
+                                self.log_unspecified = true;
+                            }
+                            return o;
+                        }
+                    };
+                    match name {
+                        "all" => {
+                            if !t {
+                                return Out::Val(V::Bool(false));
+                            }
+                        }
+                        "exists" => {
+                            if t {
+                                return Out::Val(V::Bool(true));
+                            }
+                        }
+                        "exists_one" => {
+                            if t {
+                                hits += 1;
+                                if hits > 1 {
+                                    // "stops at the first element that decides the result"
+                                    return Out::Val(V::Bool(false));
+                                }
+                            }
+                        }
+                        _ => {
+                            if t {
+                                kept.push(el);
+                            }
+                        }
+                    }
+                }
+                match name {
+                    "all" => Out::Val(V::Bool(true)),
+                    "exists" => Out::Val(V::Bool(false)),
+                    "exists_one" => Out::Val(V::Bool(hits == 1)),
+                    _ => Out::Val(V::List(kept)),
+                }
+            }
+            "map" => {
+                let mut out = Vec::new();
+                for el in range {
+                    scope.push((x.clone(), el));
+                    let r = if args.len() == 3 {
+                        match self.eval(&args[1], scope) {
+                            Out::Val(v) => {
+                                if truthy(&v) {
+                                    Some(self.eval(&args[2], scope))
+                                } else {
+                                    None
+                                }
+                            }
+                            o => Some(o),
+                        }
+                    } else {
+                        Some(self.eval(&args[1], scope))
+                    };
+                    scope.pop();
+                    match r {
+                        None => {}
+                        Some(Out::Val(v)) => out.push(v),
+                        Some(o) => return o,
+                    }
+                }
+                Out::Val(V::List(out))
+            }
+            "reduce" => {
+                // reduce(acc, x, step, seed): "threads acc from seed through step left to right"
+                let acc_name = names[0].clone();
+                let x = names[1].clone();
+                let mut acc = match self.eval(&args[3], scope) {
+                    Out::Val(v) => v,
+                    o => return o,
+                };
+                for el in range {
+                    scope.push((x.clone(), el));
+                    scope.push((acc_name.clone(), acc.clone()));
+                    let r = self.eval(&args[2], scope);
+                    scope.pop();
+                    scope.pop();
+                    acc = match r {
+                        Out::Val(v) => v,
+                        o => return o,
+                    };
+                }
+                Out::Val(acc)
+            }
+            _ => Out::Unspec,
+        }
+    }
+}
+
+pub fn type_value(n: &str) -> Option<V> {
+    Some(V::Type(
+        match n {
+            "bool" => "bool",
+            "int" => "int",
+            "uint" => "uint",
+            "float" | "double" => "float",
+            "string" => "string",
+            "bytes" => "bytes",
+            "type" => "type",
+            "timestamp" => "timestamp",
+            "duration" => "duration",
+            "null_type" => "null",
+            "dyn" => "dyn",
+            _ => return None,
+        }
+        .to_string(),
+    ))
+}
+
+pub fn is_builtin_name(n: &str) -> bool {
+    crate::props::c17::DEFAULT_FUNCS.contains(&n) || crate::props::c17::DEFAULT_MACROS.contains(&n)
+}
+
+fn type_pattern_matches(t: &str, v: &V) -> bool {
+    let want = match t {
+        "double" => "float",
+        o => o,
+    };
+    v.type_name() == want
+}
+
+pub fn size_of(v: &V) -> Out {
+    match v {
+        // "size of a list, string or bytes value is its element count (UTF-8 length for strings)"
+        V::List(l) => Out::Val(V::UInt(l.len() as u64)),
+        V::Str(s) => Out::Val(V::UInt(s.len() as u64)),
+        V::Bytes(b) => Out::Val(V::UInt(b.len() as u64)),
+        _ => Out::Unspec,
+    }
+}
+
+/// `l[i]`, `m[k]` (C06)
+pub fn index(c: &V, i: &V) -> Out {
+    match (c, i) {
+        (V::List(l), V::Int(i)) => {
+            let n = l.len() as i128;
+            let i = *i as i128;
+            // "the i-th element for 0 <= i < size, the (size+i)-th for -size <= i < 0, and an
+            //  error outside that range"
+            let k = if i >= 0 { i } else { n + i };
+            if k >= 0 && k < n {
+                Out::Val(l[k as usize].clone())
+            } else {
+                Out::Fail(FailClass::Other)
+            }
+        }
+        (V::List(l), V::UInt(u)) => {
+            if (*u as u128) < l.len() as u128 {
+                Out::Val(l[*u as usize].clone())
+            } else {
+                Out::Fail(FailClass::Other)
+            }
+        }
+        // "or for a non-integer index"
+        (V::List(_), _) => Out::Fail(FailClass::Other),
+        (V::Map(m), V::Str(k)) => match m.get(k) {
+            Some(v) => Out::Val(v.clone()),
+            None => Out::Fail(FailClass::Absent),
+        },
+        // non-string map keys, indexing strings/bytes/other values
+        _ => Out::Unspec,
+    }
+}
+
+pub fn binop(op: Op, a: &V, b: &V) -> Out {
+    match op {
+        Op::Add | Op::Sub | Op::Mul | Op::Div | Op::Rem => {
+            if op == Op::Add {
+                // "+ concatenates lists, strings and bytes preserving order"
+                match (a, b) {
+                    (V::Str(x), V::Str(y)) => return Out::Val(V::Str(format!("{}{}", x, y))),
+                    (V::Bytes(x), V::Bytes(y)) => {
+                        let mut v = x.clone();
+                        v.extend(y);
+                        return Out::Val(V::Bytes(v));
+                    }
+                    (V::List(x), V::List(y)) => {
+                        let mut v = x.clone();
+                        v.extend(y.iter().cloned());
+                        return Out::Val(V::List(v));
+                    }
+                    _ => {}
+                }
+            }
+            match model_bin(op.sym(), a, b) {
+                Exp::Val(v) => Out::Val(v),
+                Exp::Fail => Out::Fail(FailClass::Other),
+                Exp::ValOrFail(_) | Exp::Unspecified => Out::Unspec,
+            }
+        }
+        Op::Lt | Op::Le | Op::Gt | Op::Ge => match compare(a, b) {
+            Cmp::Ord(o) => Out::Val(V::Bool(match op {
+                Op::Lt => o == Some(Ordering::Less),
+                Op::Le => matches!(o, Some(Ordering::Less) | Some(Ordering::Equal)),
+                Op::Gt => o == Some(Ordering::Greater),
+                _ => matches!(o, Some(Ordering::Greater) | Some(Ordering::Equal)),
+            })),
+            Cmp::Fail => Out::Fail(FailClass::Other),
+            Cmp::Unspec => Out::Unspec,
+        },
+        Op::Eq | Op::Ne => match equal(a, b) {
+            EqR::Yes => Out::Val(V::Bool(op == Op::Eq)),
+            EqR::No => Out::Val(V::Bool(op == Op::Ne)),
+            EqR::Unspec => Out::Unspec,
+        },
+        Op::In => match b {
+            // "in tests list membership, map-key presence and substring containment and is an
+            //  error for other operand types"
+            V::List(l) => {
+                let mut unspec = false;
+                for x in l {
+                    // membership on same-type elements; cross-type comparisons are left open
+                    if std::mem::discriminant(x) == std::mem::discriminant(a) {
+                        match equal(a, x) {
+                            EqR::Yes => return Out::Val(V::Bool(true)),
+                            EqR::Unspec => unspec = true,
+                            EqR::No => {}
+                        }
+                    } else {
+                        unspec = true;
+                    }
+                }
+                if unspec {
+                    Out::Unspec
+                } else {
+                    Out::Val(V::Bool(false))
+                }
+            }
+            V::Map(m) => match a {
+                V::Str(k) => Out::Val(V::Bool(m.contains_key(k))),
+                _ => Out::Fail(FailClass::Other),
+            },
+            V::Str(s) => match a {
+                V::Str(n) => Out::Val(V::Bool(s.contains(n.as_str()))),
+                _ => Out::Fail(FailClass::Other),
+            },
+            _ => Out::Fail(FailClass::Other),
+        },
+        Op::Or | Op::And => Out::Unspec,
+    }
+}
+
+/// Compare a model outcome with what rscel returned. `None` = agrees (or unspecified).
+pub fn judge(exp: &Out, got: &crate::run::Res) -> Option<String> {
+    use crate::run::Res;
+    if let Res::Panic(p) = got {
+        return Some(format!("panic-{}", p.kind()));
+    }
+    match exp {
+        Out::Unspec => None,
+        Out::Val(v) => match got {
+            Res::Ok(c) => match V::from_cel(c) {
+                Some(x) if x.same(v) => None,
+                _ => Some("wrong-value".into()),
+            },
+            _ => Some("error-instead-of-value".into()),
+        },
+        Out::Fail(class) => match got {
+            Res::Ok(_) => Some("value-instead-of-error".into()),
+            Res::Err(e) => {
+                let absent = matches!(e, rscel::CelError::Binding { .. } | rscel::CelError::Attribute { .. });
+                match class {
+                    FailClass::Absent if !absent => Some("wrong-error-class(expected-absent)".into()),
+                    FailClass::Other if absent => Some("wrong-error-class(expected-non-absent)".into()),
+                    _ => None,
+                }
+            }
+            Res::Panic(_) => unreachable!(),
+        },
+    }
+}
